@@ -13,7 +13,8 @@ Contracts (from the property statement):
                re-ordering the molecules inside the roles
  G tokens    - distinct dynamic labels (order, p_order) / (charge, p_charge, radical, p_radical) give distinct CGR strings
 
-Audit extension (same contracts, wider domain - see AUDIT notes at the end of bounded()):
+Audit extension (same contracts, wider domain; bounds stated by the second run.bound of bounded(); finding families with input-decided keys:
+order:radical-tie, roundtrip-m:atom-number>9999, renumber:equivalent-neighbours-different-bonds (oracles/o15_ties.py)):
  A  also for molecules numbered 1..n each (overlapping numbers, the usual result of separate smiles() calls), numbers > 999, combined
     specs; r.copy(); ties of the role sort key (molecules whose bare SMILES agree but whose radical atoms differ)
  B  also for the written forms 'm' 'h' 'A' 'a' 'mh' and '!c' (order inside the roles kept exactly) and for the reader options
@@ -300,7 +301,15 @@ def _ties(run):
                 return ReactionContainer(roles[0], roles[2], roles[1])
             r1, r2 = mk(x, y), mk(y, x)
             run.case(1, key=('order-tie', a, role))
-            if str(r1) != str(r2) or r1 != r2:
+            try:
+                differ = str(r1) != str(r2) or r1 != r2
+            except Exception as e:
+                if not _library_raised(e):
+                    raise
+                run.violation(f'library-raises:ties:{type(e).__name__}:{a}:{role}', f'str(r) raises {type(e).__name__}: {e} for {a} + {b} + CCO',
+                              witness={'molecules': [a, b, 'CCO'], 'role': role}, native=repr(e))
+                continue
+            if differ:
                 assert _radical_tie(r1, ['']), 'harness: TIES entry is not a tie of the sort key'
                 run.violation('order:radical-tie', f'reaction string depends on the order of molecules inside a role: {r1} vs {r2} '
                               f'(role sort key is the SMILES without the CX radical block, so {a!r} and {b!r} tie)',
@@ -572,12 +581,16 @@ def _cgr_contracts(i, r, out):
         rx2 = ReactionContainer(R2, P2, G2)
         c2 = ~rx2
         out.case(1, key=('renumber', s0))
-        if str(c2) != s_cgr or {mp[n] for n in cgr.center_atoms} != set(c2.center_atoms) or str(rx2) != s0:
+        # (the reaction string itself is C01's subject; Kekule-form molecules are outside C01's normalised domain, so it is not compared there)
+        if str(c2) != s_cgr or {mp[n] for n in cgr.center_atoms} != set(c2.center_atoms) or (not kekulised and str(rx2) != s0):
             from oracles import o01_gaps
             if any(any(o01_gaps.gaps(m)) for m in rx.molecules()) and {mp[n] for n in cgr.center_atoms} == set(c2.center_atoms):
                 out.gaps += 1
                 continue
-            out.v(f'renumber:{s0}', f'str(~r) changes under a consistent renumbering of both sides: {s_cgr} vs {c2}',
+            from oracles import o15_ties
+            # finding family decided on the input alone (independent automorphism oracle): equivalent neighbours over different bonds
+            key = 'renumber:equivalent-neighbours-different-bonds' if (kekulised or str(rx2) == s0) and o15_ties.neighbour_ties(cgr) else f'renumber:{s0}'
+            out.v(key, f'str(~r) changes under a consistent renumbering of both sides: {s_cgr} vs {c2}',
                   witness={**wit, 'permutation': mp}, native={'original': s_cgr, 'renumbered': str(c2), 'reaction_renumbered': str(rx2)})
             break
 
@@ -616,16 +629,41 @@ def _mapped_roundtrip(rx, s0, wit, out):
             if same_centre and any(any(o01_gaps.gaps(m)) for m in rxn.molecules()):
                 out.gaps += 1
                 continue
-            out.v(f'{tag}:{s0}', f'the reaction read back from its m form {text!r} ({kw}) has another condensed graph: {cb} vs {sn}', witness=w,
+            from oracles import o15_ties
+            key = 'renumber:equivalent-neighbours-different-bonds' if 'remap' in kw and o15_ties.neighbour_ties(cn) else f'{tag}:{s0}'
+            out.v(key, f'the reaction read back from its m form {text!r} ({kw}) has another condensed graph: {cb} vs {sn}', witness=w,
                   native={'original': sn, 'read_back': str(cb), 'centre': [sorted(cn.center_atoms), sorted(cb.center_atoms)]})
+
+
+def _library_raised(e):
+    """the innermost frame of the traceback is code of the tree under verification (str / format / ~ / ^ / copy of valid reactions never
+    fail by contract); anything raised from checker code is a checker error and propagates"""
+    import os
+    import traceback
+    tb = traceback.extract_tb(e.__traceback__)
+    root = os.path.abspath(env.REPO) + os.sep
+    return bool(tb) and os.path.abspath(tb[-1].filename).startswith(root)
+
+
+def _guarded(fn, name, i, r, out):
+    try:
+        fn(i, r, out)
+    except Exception as e:
+        if not _library_raised(e):
+            raise
+        import traceback
+        where = traceback.extract_tb(e.__traceback__)[-1]
+        out.v(f'library-raises:{name}:{type(e).__name__}:seeded-reaction-{i}', f'{name} contracts on seeded reaction {i}: the library raises '
+              f'{type(e).__name__}: {e} at {where.filename.rsplit("chython/", 1)[-1]}:{where.lineno} ({where.line})',
+              witness={'seeded_reaction': i, 'seed': env.SEED}, native=''.join(traceback.format_exception(e))[-1500:])
 
 
 def _reaction(i):
     from bounded import domains as D
     out = _Out()
     r = D.rnd(f'c15:{i}')
-    _order_and_roundtrip(i, r, out)
-    _cgr_contracts(i, r, out)
+    _guarded(_order_and_roundtrip, 'order/round-trip', i, r, out)
+    _guarded(_cgr_contracts, 'condensed-graph', i, r, out)
     return out.pack()
 
 
@@ -789,24 +827,35 @@ def replay(rec):
         return rec['key'] not in rr.keys
     if not roles:
         return False
+    key = rec['key']
+    if key == 'roundtrip-m:atom-number>9999':       # the roles themselves cannot be re-read (that is the finding): re-read the written text
+        try:
+            smiles(w['written'], **(w.get('reader_options') or {}))
+        except Exception as e:
+            print('smiles(%r) raises %r' % (w['written'], e))
+            return False
+        return True
+    kek = w.get('kekulised_side')
     ms = []
-    for role in roles:
+    for role, name in zip(roles, ('reactants', 'reagents', 'products')):
         cur = []
         for t in role:
             m = smiles(t)
-            D.norm(m)
+            if name != kek:          # the kekulised side is kept as written
+                D.norm(m)
             cur.append(m)
         ms.append(cur)
     rx = ReactionContainer(ms[0], ms[2], ms[1])
     print('reaction', rx)
-    key = rec['key']
     ok = True
     if key.startswith('order:'):
         for R2 in itertools.permutations(ms[0]):
             for P2 in itertools.permutations(ms[2]):
                 for G2 in itertools.permutations(ms[1]):
                     ok &= str(ReactionContainer(R2, P2, G2)) == str(rx)
-    elif key.startswith('renumber:'):
+    elif key.startswith('copy:'):
+        ok = str(rx.copy()) == str(rx) and format(rx.copy(), 'm') == format(rx, 'm')
+    elif key.startswith('renumber:') and 'permutation' in w:
         mp = {int(k): v for k, v in w['permutation'].items()}
         def rn(m):
             c = m.copy()
@@ -814,7 +863,22 @@ def replay(rec):
             return c
         r2 = ReactionContainer([rn(m) for m in ms[0]][::-1], [rn(m) for m in ms[2]][::-1], [rn(m) for m in ms[1]])
         print('CGR', ~rx, '\nCGR renumbered', ~r2)
-        ok = str(~r2) == str(~rx) and str(r2) == str(rx)
+        ok = str(~r2) == str(~rx) and (bool(kek) or str(r2) == str(rx))
+    elif key.startswith('renumber:') or key.startswith('cgr-mapped-roundtrip'):
+        out = _Out()
+        _mapped_roundtrip(rx, str(rx), w, out)
+        for v in out.viol:
+            print(v[1])
+        ok = not out.viol
+    elif key.startswith('roundtrip') and 'written' in w:
+        out = _Out()
+        from oracles import o01_gaps
+        numbers = [n for m in rx.molecules() for n in m]
+        _roundtrip(rx, str(rx), w.get('spec', ''), w.get('reader_options') or {}, any(any(o01_gaps.gaps(m)) for m in rx.molecules()),
+                   len(set(numbers)) == len(numbers), out)
+        for v in out.viol:
+            print(v[1])
+        ok = not out.viol
     elif key.startswith('roundtrip'):
         back = smiles(str(rx))
         for m in back.molecules():
